@@ -86,11 +86,13 @@ def run_prop(run, scr, tier, seed, prop, e1=None, diff=(), diff_load=(2, 8), ext
                 nm = max(nm, 300)
             if what == 'keygen_search':
                 ns, nm = 20000, 0
+            if what == 'derive':
+                ns, nm = max(ns, 15000), 0      # directed search: a derivation defect typically needs a rare key (about 1 in 10^4)
             oc, msgs = diffnative.run(scr, what, seed=seed + 1, n_seeds=ns, n_msgs=nm)
             run.add_query({'name': f'native differential `{what}` against the spec-literal reference ({ns} seeds x {nm} messages x 3 sets)', 'engine': 'native replay', 'verdict': 'holds' if oc == 'pass' else ('sat' if oc == 'fail' else 'unknown'), 'detail': msgs[:3]}, core=False)
             if oc == 'fail':
                 confirmed.append((what, msgs))
-        path = vlib.save_replay(prop, 'skeleton', {'property': prop, 'kind': 'diff', 'diff': list(diff), 'load': [diff_load[0], max(diff_load[1], 300) if 'sign' in diff else diff_load[1]], 'seed': seed + 1,
+        path = vlib.save_replay(prop, 'skeleton', {'property': prop, 'kind': 'diff', 'diff': list(diff), 'load': [max(diff_load[0], 15000) if list(diff) == ['derive'] else diff_load[0], max(diff_load[1], 300) if 'sign' in diff else diff_load[1]], 'seed': seed + 1,
                                                    'mismatches': [{'name': m['name'], 'detail': m['detail']} for m in mism], 'confirmed': [(w, m[:4]) for w, m in confirmed],
                                                    'scalar_cases': [[n, list(a)] for n, a, _ in getattr(suite, 'scalar_cases', [])], 'codec': any(w == 'codec' for w, _ in confirmed)})
         if confirmed:
